@@ -80,6 +80,20 @@ class Const010(LDSchema):
     label: NonEmptyStr
 
 
+@add_const_fields({"kind": "strict", "rank": 1})
+class Strict010(MetadataSchema):
+    """constants together with extra=forbid: the embedded JSON Schema must list the constants as properties"""
+
+    class Plugin:
+        name = "fam.strict"
+        version = (0, 1, 0)
+
+    class Config:
+        extra = "forbid"
+
+    s: Int
+
+
 class Units010(MetadataSchema):
     class Plugin:
         name = "fam.units"
@@ -107,4 +121,4 @@ class Nested010(MetadataSchema):
     many: List[Inner] = []
 
 
-ALL = [Base010, Base020, Base100, Mid010, Mid030, Leaf010, Aux010, Const010, Units010, Nested010]
+ALL = [Base010, Base020, Base100, Mid010, Mid030, Leaf010, Aux010, Const010, Strict010, Units010, Nested010]
